@@ -195,6 +195,9 @@ func (c *Chain) ModuleRoundTrip() []RTIssue {
 
 func errClass(err error) string {
 	s := err.Error()
+	if strings.Contains(s, "consensus state height cannot be zero") {
+		return "consensus_state_height_zero"
+	}
 	for _, kw := range []string{"client type", "consensus state", "metadata", "height", "relayer", "chain name", "duplicate", "token pair", "denom", "reward"} {
 		if strings.Contains(strings.ToLower(s), kw) {
 			return strings.ReplaceAll(kw, " ", "_")
